@@ -283,7 +283,7 @@ def run(ctx) -> None:
     install()
     rng = ctx.rng
     thorough = ctx.tier == "thorough"
-    n_max = {"quick": 1500, "thorough": 25000}[ctx.tier]
+    n_max = {"quick": 5000, "thorough": 80000}[ctx.tier]
     done = 0
     while done < n_max and not ctx.expired():
         case = gen_case(rng, thorough)
